@@ -6,6 +6,9 @@ import Mhd.Proofs.FramingMalformed
 namespace Mhd.Framing
 open Mhd.Gen.Framing Framer
 
+set_option linter.unusedSectionVars false
+variable [P : HeadParser] [L : LawfulHeadParser]
+
 /-! ### the strict reference framer on strictly rendered requests -/
 
 theorem takeLine_intro (l r : Bytes) (h : ∀ d ∈ l, d ≠ CR) : takeLine (l ++ CR :: LF :: r) = some (l, r) := by
@@ -164,7 +167,7 @@ theorem ref_chunks (cs : List Chunk) (hcs : ∀ c ∈ cs, StrictChunk c) (last :
 
 /-- a generated request whose framing fields satisfy RFC 9112 §6.3 and which is rendered strictly -/
 structure MsgStrict (m : Msg) : Prop where
-  canonical : parseHead m.headBytes = .ok m.head []
+  headOK : P.head m.headBytes = .ok m.head []
   framing :
     match m.body with
     | .none => fieldValues m.head.fields hdrTransferEncoding = [] ∧
@@ -174,14 +177,14 @@ structure MsgStrict (m : Msg) : Prop where
         ∃ v, fieldValues m.head.fields hdrContentLength = [v] ∧ ValidDec v ∧ decValue v = d.length
     | .chunked cs last tr => (∃ te, fieldValues m.head.fields hdrTransferEncoding = [te] ∧ eqCI te tokChunked = true) ∧
         fieldValues m.head.fields hdrContentLength = [] ∧ m.head.http11 = true ∧
-        (∀ c ∈ cs, StrictChunk c) ∧ StrictLast last ∧ ∃ fs, parseTrailers tr = .ok fs []
+        (∀ c ∈ cs, StrictChunk c) ∧ StrictLast last ∧ ∃ fs, P.trailers tr = .ok fs []
   noClose : lookupToken m.head.fields hdrConnection tokClose = false
   keep : m.head.http11 = true ∨ lookupToken m.head.fields hdrConnection tokKeepAlive = true
 
 /-- RFC-level validity implies what the implementation model needs (`decideBody_valid`) -/
 theorem MsgStrict.msgOK {m : Msg} (h : MsgStrict m) (lvl : Int) (hh : HostOK lvl m.head.http11 m.head.fields) :
     MsgOK lvl m where
-  canonical := h.canonical
+  headOK := h.headOK
   noClose := h.noClose
   keep := h.keep
   framing := by
@@ -222,8 +225,8 @@ theorem encodeChunked_length (cs : List Chunk) (last : Chunk) (hcs : ∀ c ∈ c
 
 theorem ref_next (m : Msg) (h : MsgStrict m) (rest : Bytes) :
     Framer.next (m.bytes ++ rest) = .frame m.frame rest := by
-  have hp : parseHead (m.bytes ++ rest) = .ok m.head (m.body.bytes ++ rest) := by
-    have := parseHead_append m.headBytes (m.body.bytes ++ rest) m.head [] h.canonical
+  have hp : P.head (m.bytes ++ rest) = .ok m.head (m.body.bytes ++ rest) := by
+    have := L.head_append m.headBytes (m.body.bytes ++ rest) m.head [] h.headOK
     simpa [Msg.bytes, List.append_assoc] using this
   have hpers : persistent m.head = true := by
     unfold persistent
@@ -276,7 +279,7 @@ theorem ref_next (m : Msg) (h : MsgStrict m) (rest : Bytes) :
       BodySpec.bytes, List.append_assoc, hch, List.nil_append, htr', Msg.frame, hb, BodySpec.data, hpers]
 
 theorem Msg.bytes_ne (m : Msg) (h : MsgStrict m) : m.bytes ≠ [] := by
-  have := parseHead_length _ _ _ h.canonical
+  have := L.head_length _ _ _ h.headOK
   intro e
   have : m.headBytes.length = 0 := by
     have := congrArg List.length e
